@@ -652,6 +652,41 @@ private:
     }
   }
 
+  // Forget the constraints of env that mention v
+  template<class BoolToCstEnv>
+  void forget_csts_with_var(BoolToCstEnv &env, const variable_t &v) {
+    using csts_t = typename BoolToCstEnv::mapped_type;
+    transform_if(env,
+		 [&v](const csts_t &csts) {
+		   if (csts.is_top() || csts.is_bottom()) {
+		     return false;
+		   }
+		   for (auto const &cst : csts) {
+		     for (auto const &x : cst.variables()) {
+		       if (x == v) {
+			 return true;
+		       }
+		     }
+		   }
+		   return false;
+		 },
+		 [](csts_t &csts) { csts = csts_t::top();});
+  }
+
+  // Mark the variables of cst as unchanged. If a variable is marked as
+  // changed then the constraints that mention it were recorded before
+  // the change: they must be forgotten, otherwise they would be
+  // considered again as if they talked about the current value.
+  template<class Cst>
+  void mark_vars_as_unchanged(const Cst &cst) {
+    for (auto const &v : cst.variables()) {
+      if (m_unchanged_vars.is_top() || !m_unchanged_vars.at(v)) {
+	forget_csts_with_var(m_bool_to_lincsts, v);
+	forget_csts_with_var(m_bool_to_refcsts, v);
+	m_unchanged_vars += v;
+      }
+    }
+  }
   
   template<class BoolToCstEnv>
   void propagate_assign_bool_var(BoolToCstEnv &env,
@@ -868,12 +903,10 @@ private:
 	m_product.first().set_bool(x, boolean_value::top());
       }
       
-      m_bool_to_lincsts.set(x, lincst_set_t(cst));
       // We assume all variables in cst are unchanged unless the
       // opposite is proven
-      for (auto const &v : cst.variables()) {
-	m_unchanged_vars += v;
-      }
+      mark_vars_as_unchanged(cst);
+      m_bool_to_lincsts.set(x, lincst_set_t(cst));
     }
     m_bool_to_bools -= x;
   }
@@ -904,12 +937,10 @@ private:
 	  m_product.first().set_bool(x, boolean_value::top());
 	}
       }
-      m_bool_to_refcsts.set(x, refcst_set_t(cst));
       // We assume all variables in cst are unchanged unless the
       // opposite is proven
-      for (auto const &v : cst.variables()) {
-	m_unchanged_vars += v;
-      }
+      mark_vars_as_unchanged(cst);
+      m_bool_to_refcsts.set(x, refcst_set_t(cst));
     }
     m_bool_to_bools -= x;
 
